@@ -367,49 +367,48 @@ def rule_isvisible(chk, p, t):
     optical = [m for m, o in impls if o == "Optical"]
     for m in optical:
         def operands(m=m):
-            defs = single_defs(m.node)
+            from rsa.terms import canon as _canon, inline_locals as _inl, negated as _neg
+
+            require(len(m.params) >= 5, "Optical.isVisible(self, target state, cross-section, reflectivity, slant range) expected", m.node)
+            p_tgt, p_vcs, p_refl, p_slant = m.params[1:5]
+            SUN = "Sun.getPosition(self.host.julian_date_epoch)"
+            HOST = "self.host.eci_state"
+            BORE = f"({p_tgt} - {HOST})"
+            PHASE = f"calculatePhaseAngle({SUN}, {p_tgt}[:3], {HOST}[:3])"
             exp = {
-                "tgt_solar_flux": ("calculateIncidentSolarFlux", ["viz_cross_section", "tgt_eci_state[:3]", "sun_eci_position"]),
-                "solar_phase_angle": ("calculatePhaseAngle", ["sun_eci_position", "tgt_eci_state[:3]", "self.host.eci_state[:3]"]),
-                "space_lighting": ("checkSpaceSensorLightingConditions", ["boresight_eci[:3]", "target_sun_unit_vector_eci"]),
-                "target_is_obscured": ("checkSpaceSensorEarthLimbObscuration", ["self.host.eci_state", "slant_range_sez"]),
-                "ground_lighting": ("checkGroundSensorLightingConditions", ["self.host.eci_state[:3]", "sun_eci_position / norm(sun_eci_position)"]),
-                "sun_eci_position": ("getPosition", ["jd"]),
+                "calculateIncidentSolarFlux": [p_vcs, f"{p_tgt}[:3]", SUN],
+                "calculatePhaseAngle": [SUN, f"{p_tgt}[:3]", f"{HOST}[:3]"],
+                "apparentVisualMagnitude": [p_vcs, p_refl, f"lambertianPhaseFunction({PHASE})", f"norm({BORE})"],
+                "checkGalacticExclusionZone": [f"{BORE}[:3]"],
+                "checkSpaceSensorLightingConditions": [f"{BORE}[:3]", None],
+                "checkSpaceSensorEarthLimbObscuration": [HOST, p_slant],
+                "checkGroundSensorLightingConditions": [f"{HOST}[:3]", f"{SUN} / norm({SUN})"],
             }
+
+            def cn(txt):
+                return _canon(ast.parse(txt, mode="eval").body)
+
             bad = []
-            for name, (fn_, args) in exp.items():
-                d = defs.get(name)
-                if d is None or not isinstance(d, ast.Call) or call_name(d) != fn_ or [unparse(a) for a in d.args] != args:
-                    bad.append(f"{name} = {unparse(d) if d is not None else None}")
-            tsu = defs.get("target_sun_unit_vector_eci")
-            from rsa.terms import canon as _canon, inline_locals as _inl
-
-            ok_tsu = False
-            if tsu is not None:
-                e = _inl(m, tsu)
-                if isinstance(e, ast.BinOp) and isinstance(e.op, ast.Div) and isinstance(e.right, ast.Call) and call_name(e.right) == "norm":
-                    want = _canon(ast.parse("sun_eci_position - tgt_eci_state[:3]", mode="eval").body)
-                    inner = e.right.args[0]
-                    from rsa.terms import negated as _neg
-
-                    ok_tsu = _canon(e.left) == _canon(_inl(m, ast.parse("sun_eci_position - tgt_eci_state[:3]", mode="eval").body)) and (
-                        _canon(inner) == _canon(e.left) or _neg(inner, e.left)
-                    )
-                    _ = want
-            if not ok_tsu:
-                bad.append(f"target_sun_unit_vector_eci = `{unparse(tsu) if tsu is not None else None}` (expected the unit vector from the target to the Sun, (sun - target)/|sun - target|)")
-            be = defs.get("boresight_eci")
-            if be is None or unparse(be) != "tgt_eci_state - self.host.eci_state":
-                bad.append(f"boresight_eci = {unparse(be) if be is not None else None}")
-            vm = defs.get("rso_apparent_vismag")
-            if vm is None or not isinstance(vm, ast.Call) or [unparse(a) for a in vm.args] != ["viz_cross_section", "reflectivity", "lambertianPhaseFunction(solar_phase_angle)", "norm(boresight_eci)"]:
-                bad.append(f"rso_apparent_vismag = {unparse(vm) if vm is not None else None}")
-            gz = [c for c in find_calls(m.node, "checkGalacticExclusionZone")]
-            if len(gz) != 1 or [unparse(a) for a in gz[0].args] != ["boresight_eci[:3]"]:
-                bad.append("checkGalacticExclusionZone operand")
-            jd = defs.get("jd")
-            if jd is None or unparse(jd) != "self.host.julian_date_epoch":
-                bad.append(f"jd = {unparse(jd) if jd is not None else None}")
+            for fn_, args in exp.items():
+                calls = find_calls(m.node, fn_)
+                if len(calls) != 1:
+                    bad.append(f"{fn_} is called {len(calls)} times")
+                    continue
+                got = [_inl(m, a) for a in calls[0].args] + [_inl(m, k.value) for k in calls[0].keywords]
+                if len(got) != len(args):
+                    bad.append(f"{fn_} gets {len(got)} arguments")
+                    continue
+                for i, (g, want) in enumerate(zip(got, args)):
+                    if want is None:
+                        # the unit vector from the target to the Sun: (sun - target) / |sun - target|
+                        ok_tsu = False
+                        if isinstance(g, ast.BinOp) and isinstance(g.op, ast.Div) and isinstance(g.right, ast.Call) and call_name(g.right) == "norm" and g.right.args:
+                            inner = g.right.args[0]
+                            ok_tsu = _canon(g.left) == cn(f"{SUN} - {p_tgt}[:3]") and (_canon(inner) == _canon(g.left) or _neg(inner, g.left))
+                        if not ok_tsu:
+                            bad.append(f"{fn_} argument {i + 1} = `{unparse(g)[:90]}` (expected the unit vector from the target to the Sun, (sun - target)/|sun - target|)")
+                    elif _canon(g) != cn(want):
+                        bad.append(f"{fn_} argument {i + 1} = `{unparse(g)[:90]}` (expected `{want}`)")
             if bad:
                 r_pol.violation(m.qualname + ":operands", "operands:" + ";".join(bad), "optical visibility helpers are evaluated on the wrong operands: " + "; ".join(bad), m.loc())
             else:
@@ -788,10 +787,11 @@ def run(chk, p, t):
 
         C14.rule_r1(chk, p, t, rid="C02.R8")
         C14.rule_r4(chk, p, t, rid="C02.R9")
+        C14.rule_r6(chk, p, t, rid="C02.R10")
 
     steps = [("C02.R1", rule_r1), ("C02.R2", rule_isvisible), ("C02.R5", rule_r5), ("C02.R6", rule_r6), ("C02.R7", rule_r7), ("C02.R8", rule_r8)]
     for rid, fn in steps:
-        if chk.only_rule is not None and chk.only_rule not in (rid, "C02.R3", "C02.R4"):
+        if chk.only_rule is not None and chk.only_rule not in (rid, "C02.R3", "C02.R4") and not (rid == "C02.R8" and chk.only_rule in ("C02.R9", "C02.R10")):
             continue
         if chk.only_rule in ("C02.R3", "C02.R4") and fn is not rule_isvisible:
             continue
